@@ -4,7 +4,7 @@ from vlib import common, decsuite, picgen, refdec, h263spec as S
 from vlib.common import hexs
 from vlib.decsuite import D, parse_tok, cls_kind, planes_of
 
-THEOREMS = ["C03_predicted_picture", "C03_picture_body_roundtrip", "C03_block_prediction", "C03_vector_wrap", "C03_chroma_vector_table", "C03_median", "C03_no_reference_is_an_error", "C03_code_tables", "C03_zero_vector_copies"]
+THEOREMS = ["C03_predicted_picture", "C03_picture_body_roundtrip", "C03_block_prediction", "C03_vector_wrap", "C03_chroma_vector_table", "C03_median", "C03_no_reference_is_an_error", "C03_code_tables", "C03_zero_vector_copies", "C03_predicted_picture_accurate"]
 BRIDGES = ["BridgeTables"]
 SIZES = [(16, 16), (32, 16), (16, 32), (48, 32), (17, 9), (1, 1), (15, 33), (33, 18), (64, 16), (8, 40), (40, 40), (80, 24)]
 
@@ -44,7 +44,10 @@ def gen_cases(ctx, n):
         if trunc is not None:
             # end the data exactly at the last macroblock: the remaining macroblocks are copies
             data_p = bp.to_bytes(pad_bit=1) if False else data_p
-        cases.append((i, 0 if mode == "std" else 1, [D(bi.to_bytes()), D(data_p)]))
+        # what the decoder saw before the reference picture is of no concern to the predicted picture: a third of the cases
+        # run after other pictures (other sizes, a rejected delivery, an earlier intra / predicted pair)
+        pre = [D(x) for x in picgen.history_prefix(rng, mode, w, h)] if i % 3 == 1 else []
+        cases.append((i, 0 if mode == "std" else 1, pre + [D(bi.to_bytes()), D(data_p)]))
         descs[i] = (di, dp)
     # prediction without a reference must be rejected
     for j in range(12):
@@ -60,7 +63,7 @@ def gen_cases(ctx, n):
 
 def run(ctx):
     thorough = ctx.tier == "thorough"
-    broken = common.proof_step(ctx, THEOREMS, BRIDGES, allowed_axioms=common.REALS_AXIOMS)
+    broken = common.proof_step(ctx, THEOREMS, BRIDGES, allowed_axioms=common.REALS_AXIOMS + common.PRIMITIVE_AXIOMS, coqchk_admit=("proofs.BasisTable",))
     err = common.ensure_runners(ctx)
     if err:
         ctx.violation({"kind": "build", "names": "harness build failed", "log": err[-2000:]}, "harness does not build", found_input=False)
@@ -96,6 +99,7 @@ def run(ctx):
         if not same or idx % (2 if thorough and idx < 2000 else 5) == 0 or any(cls_kind(t["cls"]) != "ok" for t in toks):
             n_oracle += 1
             v = None
+            toks = toks[-2:]           # the reference picture and the predicted picture (after any earlier history)
             if len(toks) < 2 or toks[0]["cls"] != "ok":
                 v = {"problem": "reference picture rejected: %s" % toks[0]["cls"]}
             elif toks[1]["cls"] != "ok":
